@@ -143,7 +143,7 @@ def run(chk, repo, tier):
         cls_node = [c for c in repo.mod(rel).tree.body if isinstance(
             c, ast.ClassDef) and c.name == scope]
         const = bool(cls_node) and readonly_literal_table(
-            repo.mod(rel).tree, cls_node[0], name)
+            repo.mod(rel).tree, cls_node[0], name, literal=False)
         chk.ob('R15.1', (rel, scope, name) in allowed_class_state or const,
                rel, node,
                key='class-state:%s.%s' % (scope, name), qualname=scope,
